@@ -4,7 +4,11 @@ import (
 	"bytes"
 	"fmt"
 	"io"
+	"os"
+	"path/filepath"
 	"runtime/debug"
+	"sort"
+	"strings"
 
 	"github.com/go-logr/logr"
 	"github.com/wrgl/wrgl/pkg/ingest"
@@ -17,6 +21,61 @@ type IngestCfg struct {
 	Delim   rune
 	RunSize uint64 // 0 = automatic
 	Workers int    // as passed to WithNumWorkers (wrgl runs max(1, Workers-2) goroutines)
+	// SpillFault > 0: when the CSV has been read completely (the sorter closes its input then, before it merges its spill
+	// files), the SpillFault-th spill file (mod their number) is cut in the middle of the length prefix of its last cell - a disk
+	// that returns a short file.
+	SpillFault int
+	Faulted    *string // receives the name of the damaged file, "" if nothing had been spilled
+}
+
+type closeHook struct {
+	io.Reader
+	f func()
+}
+
+func (c *closeHook) Close() error { c.f(); return nil }
+
+// cutInsideLastLengthPrefix parses a spill file (rows as string lists: uint32 count, then per cell a uint16 length and
+// the bytes) and returns the size that keeps everything up to the first byte of the last cell's length prefix: a reader
+// then finds half a length field, which cannot be mistaken for the end of the data (0 = file not understood).
+func cutInsideLastLengthPrefix(path string) int {
+	b, err := os.ReadFile(path)
+	if err != nil {
+		return 0
+	}
+	off, lastPrefix := 0, -1
+	for off+4 <= len(b) {
+		n := int(uint32(b[off])<<24 | uint32(b[off+1])<<16 | uint32(b[off+2])<<8 | uint32(b[off+3]))
+		off += 4
+		for i := 0; i < n; i++ {
+			if off+2 > len(b) {
+				return 0
+			}
+			l := int(b[off])<<8 | int(b[off+1])
+			lastPrefix = off
+			off += 2 + l
+			if off > len(b) {
+				return 0
+			}
+		}
+	}
+	if off != len(b) || lastPrefix < 0 {
+		return 0
+	}
+	return lastPrefix + 1
+}
+
+// spillFiles lists the sorter's chunk files in this process's temp directory.
+func spillFiles() []string {
+	ents, _ := os.ReadDir(os.TempDir())
+	var out []string
+	for _, e := range ents {
+		if strings.HasPrefix(e.Name(), "sorted_chunk_") {
+			out = append(out, filepath.Join(os.TempDir(), e.Name()))
+		}
+	}
+	sort.Strings(out)
+	return out
 }
 
 // Ingest runs ingest.IngestTable on the real code. A panic on the calling
@@ -42,6 +101,30 @@ func Ingest(db objects.Store, csvBytes []byte, cfg IngestCfg) (sum []byte, err e
 	if w == 0 {
 		w = 1
 	}
-	sum, err = ingest.IngestTable(db, s, io.NopCloser(bytes.NewReader(csvBytes)), cfg.PK, logr.Discard(), ingest.WithNumWorkers(w))
+	var in io.ReadCloser = io.NopCloser(bytes.NewReader(csvBytes))
+	if cfg.SpillFault > 0 {
+		before := map[string]bool{}
+		for _, f := range spillFiles() {
+			before[f] = true
+		}
+		in = &closeHook{Reader: bytes.NewReader(csvBytes), f: func() {
+			var mine []string
+			for _, f := range spillFiles() {
+				if !before[f] {
+					mine = append(mine, f)
+				}
+			}
+			if len(mine) == 0 {
+				return
+			}
+			victim := mine[cfg.SpillFault%len(mine)]
+			if cut := cutInsideLastLengthPrefix(victim); cut > 0 {
+				if os.Truncate(victim, int64(cut)) == nil && cfg.Faulted != nil {
+					*cfg.Faulted = filepath.Base(victim)
+				}
+			}
+		}}
+	}
+	sum, err = ingest.IngestTable(db, s, in, cfg.PK, logr.Discard(), ingest.WithNumWorkers(w))
 	return sum, err, ""
 }
